@@ -77,6 +77,12 @@ func mustCall(u *Universe, f *ssa.Function, names map[string]bool, depth int, me
 	memo[f] = 0 // in progress: recursion does not count
 	tests := nilTests(f)
 	barrier := func(in ssa.Instruction) bool {
+		// pseudo-callee "index:Type.field": an element of that slice field is addressed
+		if ia, isIA := in.(*ssa.IndexAddr); isIA {
+			if fld := containerFieldOf(ia.X); fld != "" && names["index:"+fld] {
+				return true
+			}
+		}
 		call, ok := in.(ssa.CallInstruction)
 		if !ok {
 			return false
@@ -184,15 +190,13 @@ func ruleMustCallEntries(c *Ctx, u *Universe, prop string, table []mustCallEntry
 				for _, k := range strings.Split(e.Callee, "|") {
 					names[k] = true
 				}
-				for _, in := range instrsOf(parent) {
-					for _, op := range in.Operands(nil) {
-						h, isF := (*op).(*ssa.Function)
-						if !isF || h.Pkg != parent.Pkg || h.Parent() != nil || listedFunction(rel, u.fname(h)) {
-							continue
-						}
-						if mustCall(u, h, names, 2, map[*ssa.Function]int{}) {
-							f = h
-						}
+				// candidates: functions of the package the parent refers to (directly, or as a method bound to a value)
+				for _, h := range family(parent, 0)[1:] {
+					if h.Pkg != parent.Pkg || h.Parent() != nil || listedFunction(rel, u.fname(h)) {
+						continue
+					}
+					if mustCall(u, h, names, 2, map[*ssa.Function]int{}) {
+						f = h
 					}
 				}
 			}
@@ -254,7 +258,7 @@ func moduleFuncGone(u *Universe, name string) bool {
 			rel = r
 		}
 	}
-	if rel == "" || strings.HasPrefix(name, "invoke:") {
+	if rel == "" || strings.HasPrefix(name, "invoke:") || strings.HasPrefix(name, "index:") {
 		return false
 	}
 	return u.ssaFunc(rel, name[len(rel)+1:]) == nil
